@@ -177,6 +177,9 @@ def audit(theorems):
     return ok, bad
 
 
+DIED = []   # requests on which a child died or ran out of time (copied into the evidence)
+
+
 class Proc:
     """A line-protocol child (harness or model driver). Large batches are split over several
     children running in parallel (the answers come back in request order)."""
@@ -196,14 +199,18 @@ class Proc:
         if out and out[-1] == "":
             out.pop()
         if len(out) != len(lines):
-            # the child died (abort, stack overflow) or ran out of time: bisect to keep going
+            # the child died (abort, stack overflow) or ran out of time: bisect to keep going. Only one half
+            # contains the request that hangs, so the budget shrinks with every level: a single hanging
+            # request costs a few minutes in all, not the full budget per level.
             if len(lines) == 1:
+                DIED.append({"child": os.path.basename(self.argv[-1]), "request": lines[0][:400], "how": str(rc)})
                 return ["died:%s" % rc]
             mid = len(lines) // 2
-            return self._one(lines[:mid], timeout) + self._one(lines[mid:], timeout)
+            t2 = max(12, timeout // 3) if rc == "timeout" else timeout
+            return self._one(lines[:mid], t2) + self._one(lines[mid:], t2)
         return out
 
-    def ask(self, lines, timeout=900):
+    def ask(self, lines, timeout=240):
         if not lines:
             return []
         n = len(lines)
@@ -312,7 +319,7 @@ class Report:
                 "rule": self.rule, "samples": self.samples,
                 "traces_validated_against_impl": self.traces,
                 "histogram": dict(self.stats), "known_finding_hits": dict(self.known_hits),
-            }, **self.extra),
+            }, **dict(self.extra, requests_died_or_timed_out=DIED[:20])),
             "assumptions": self.assumptions,
             "wall_s": wall, "violations": len(self.violations),
         }
